@@ -24,6 +24,8 @@ import time
 HERE = os.path.dirname(os.path.abspath(__file__))
 sys.path.insert(0, HERE)
 REPO = os.environ.get('VERIF_REPO', '/repo')
+OUT = os.environ.get('VERIF_OUT_DIR') or os.path.join(HERE, 'out')              # scratch runs on mutated copies
+EVID = os.environ.get('VERIF_EVIDENCE_DIR') or os.path.join(HERE, 'evidence')   # redirect both, never the defaults
 PYVT = 'python3-vt'
 VENV_PY = '/venv/bin/python'
 
@@ -34,7 +36,7 @@ LEVEL = {  # evidence level per property (must agree with MANIFEST.json)
     'C12': 'exploration', 'C13': 'exploration', 'C14': 'exploration', 'C15': 'exploration', 'C16': 'exploration',
     'C17': 'fault_enumeration', 'C18': 'exploration',
 }
-CONTRACT_MODULES = ['streams', 'sync']
+CONTRACT_MODULES = ['streams', 'sync', 'writers']
 STANDING_ASSUMPTIONS = [
     'pyvc encodes a subset of Python: unbounded mathematical integers, bytes/str as z3 sequences, attribute dictionaries, '
     'no threads, no signals; anything outside the subset makes the unit undecided (never a pass)',
@@ -106,9 +108,9 @@ def main():
     os.environ['VERIF_TIER'] = tier
     seed = int(os.environ.get('VERIF_SEED', '0') or 0)
     t0 = time.time()
-    os.makedirs(os.path.join(HERE, 'out', 'replay'), exist_ok=True)
-    os.makedirs(os.path.join(HERE, 'evidence'), exist_ok=True)
-    evp = os.path.join(HERE, 'evidence', f'{prop}.json')
+    os.makedirs(os.path.join(OUT, 'replay'), exist_ok=True)
+    os.makedirs(EVID, exist_ok=True)
+    evp = os.path.join(EVID, f'{prop}.json')
     checker_errors, violations = [], []
 
     # ------------------------------------------------------------------ deductive part
@@ -176,7 +178,7 @@ def main():
             lines.append(f"VIOLATION property={prop} replay={v['replay']}")
             lines.append(f"  {v['msg']}")
         else:
-            rp = os.path.join(HERE, 'out', 'replay', f"{prop}_obligation_{reported}.json")
+            rp = os.path.join(OUT, 'replay', f"{prop}_obligation_{reported}.json")
             payload = {'property': prop, 'failed_obligation': v['obligation'], 'unit': v['unit'], 'verifier_output': v['detail'],
                        'note': 'counter-model of the verification condition (symbolic state of the environment model)'}
             if concrete:
@@ -249,7 +251,7 @@ def z3_version():
 
 
 def run_bounded(prop, tier, seed):
-    out = os.path.join(HERE, 'out', f'bounded_{prop}_{os.getpid()}.json')
+    out = os.path.join(OUT, f'bounded_{prop}_{os.getpid()}.json')
     try:
         r = subprocess.run([VENV_PY, os.path.join(HERE, 'bounded', 'run.py'), prop, '--tier', tier, '--seed', str(seed),
                             '--out', out], capture_output=True, text=True, env=env(), cwd=HERE,
